@@ -1,13 +1,18 @@
-\* behaviour generation (tlc -simulate): chains of <= 4 blocks, <= 3 reverts, the code as it is
+\* behaviour generation (tlc -simulate): chains of <= 4 blocks, <= 8 reverts, the code as it is; half of the
+\* behaviours use the base alphabet, the others one of the section scenarios (RpcReadMBT!ScnPick)
 CONSTANTS
   MaxLen = 4
   MaxReverts = 8
   MaxSteps = 48
+  ProbesPerOp = 0
   Txs <- MCTxs
   FixTxIndexMissingBlock = FALSE
   FixZeroHashState = FALSE
   FixLegacyZeroWriteLog = FALSE
   LubZeroShortcut = FALSE
+  NVar = 3
+  Scenarios = {"base", "stor", "clear", "zz", "nonce", "repl", "deploy", "depacc", "decl0", "decl1", "mig"}
+  Leave = {}
   WithPreConfirmed = TRUE
 INIT MBTInit
 NEXT MBTNext
